@@ -9,7 +9,10 @@ package c11
 import (
 	"fmt"
 	"os"
+	"sort"
 	"testing"
+
+	"github.com/ethereum/go-ethereum/rlp"
 
 	"github.com/Fantom-foundation/lachesis-base/inter/idx"
 	"github.com/Fantom-foundation/lachesis-base/inter/pos"
@@ -321,6 +324,48 @@ func (s vset) build(viaBuilder bool) *pos.Validators {
 	return pos.ArrayToValidators(ids, ws)
 }
 
+// buildDrawn builds the set through the builder, the array constructor, or by decoding an RLP list of
+// (ID, weight) pairs in canonical order in which some pairs are repeated (a decoder must not count a
+// repeated validator twice: the decoded object is a set).
+func (s vset) buildDrawn(t *rapid.T) *pos.Validators {
+	switch rapid.IntRange(0, 3).Draw(t, "buildPath") {
+	case 0:
+		return s.build(true)
+	case 1:
+		return s.build(false)
+	}
+	type pair struct {
+		ID     idx.ValidatorID
+		Weight pos.Weight
+	}
+	ps := make([]pair, len(s.IDs))
+	for i := range s.IDs {
+		ps[i] = pair{idx.ValidatorID(s.IDs[i]), pos.Weight(s.W[i])}
+	}
+	sort.SliceStable(ps, func(a, b int) bool {
+		if ps[a].Weight != ps[b].Weight {
+			return ps[a].Weight > ps[b].Weight
+		}
+		return ps[a].ID < ps[b].ID
+	})
+	var list []pair
+	for _, p := range ps {
+		list = append(list, p)
+		if rapid.IntRange(0, 2).Draw(t, "repeatPair") == 0 {
+			list = append(list, p)
+		}
+	}
+	enc, err := rlp.EncodeToBytes(list)
+	if err != nil {
+		t.Fatalf("rlp encode: %v", err)
+	}
+	v := &pos.Validators{}
+	if err := rlp.DecodeBytes(enc, v); err != nil {
+		t.Fatalf("decoding the pair list %v failed: %v", list, err)
+	}
+	return v
+}
+
 // indexMap returns the code's index of every member (position in s.IDs -> idx) after checking
 // that it is a bijection onto 0..n-1 that agrees with the member weights.
 func indexMap(t *rapid.T, s vset, v *pos.Validators) []idx.Validator {
@@ -351,7 +396,7 @@ var stSets = stats.New("sets")
 func TestC11Sets(t *testing.T) {
 	rapid.Check(t, func(t *rapid.T) {
 		s := genSet(t, 8)
-		v := s.build(rapid.Bool().Draw(t, "viaBuilder"))
+		v := s.buildDrawn(t)
 		T := s.Total
 		n := len(s.IDs)
 		q := refQuorum(T)
@@ -460,7 +505,7 @@ func TestC11Counter(t *testing.T) {
 	rapid.Check(t, func(t *rapid.T) {
 		// mostly small sets; some with more members than one machine word of "already counted" flags
 		s := genSet(t, rapid.SampledFrom([]int{8, 8, 8, 8, 40, 70, 130}).Draw(t, "maxMembers"))
-		v := s.build(rapid.Bool().Draw(t, "viaBuilder"))
+		v := s.buildDrawn(t)
 		T, n, q := s.Total, len(s.IDs), refQuorum(s.Total)
 		im := indexMap(t, s, v)
 		byIdx := make([]int, n) // idx -> position in s
